@@ -8,11 +8,22 @@ WHAT = {"C08-D3-compaction-drops-sources": "compaction writes a segment that con
         "C08-D1m-shared-templates": "every memtable aliases the template sub-indexes, so a segment file also holds documents added later; one of them removed afterwards is returned again from that segment"}
 
 
-def model_check(rep, d, name, note):
-    r = C.tlc(d, "Store", name + ".cfg", timeout=3000, heap="12g")
+def model_check(rep, d, name, note, override=None, label=None):
+    """Model-checks Store.tla with specs/<name>.cfg, optionally with constants overridden (smaller quick-tier instances)."""
+    cfg = name + ".cfg"
+    if override:
+        txt = open(os.path.join(d, cfg)).read()
+        for k, v in override.items():
+            import re
+            txt, n = re.subn(r"(?m)^(\s*%s\s*=\s*).*$" % k, lambda m: m.group(1) + str(v), txt)
+            if n != 1:
+                raise C.Inconclusive("constant %s not found in %s" % (k, cfg))
+        cfg = name + "_run.cfg"
+        open(os.path.join(d, cfg), "w").write(txt)
+    r = C.tlc(d, "Store", cfg, timeout=6000, heap="16g")
     if not r.ok:
-        raise C.Inconclusive("Store.tla (%s) violates its invariants (specification defect):\n%s" % (name, r.out[-2500:]))
-    rep.model_run(name, r, note)
+        raise C.Inconclusive("Store.tla (%s) violates its properties (specification defect):\n%s" % (name, r.out[-2500:]))
+    rep.model_run(label or name, r, note + ((" [constants overridden: %s]" % override) if override else ""))
     return r
 
 
